@@ -74,3 +74,44 @@ pub fn any_sboard_k(turn: u8, ksq: u8) -> SBoard {
     s.colors[(1 - turn) as usize] = (s.colors[(1 - turn) as usize] | ekb) & !kb;
     s
 }
+
+/// symbolic board with any subset of {side to move, mover's king square, enemy king square}
+/// fixed to constants BY CONSTRUCTION (everything else symbolic). Constants let the solver's
+/// simplifier see fixed rays from the king squares; the families of harnesses that use this
+/// enumerate the constants, so nothing is lost in the thorough tier.
+pub fn any_sboard_kk(turn: Option<u8>, ksq: Option<u8>, eksq: Option<u8>) -> SBoard {
+    let mut s = any_sboard();
+    if let Some(t) = turn {
+        s.turn = t;
+    }
+    let us = s.turn as usize;
+    let them = 1 - us;
+    let k: u8 = match ksq {
+        Some(k) => k,
+        None => {
+            let k: u8 = kani::any();
+            kani::assume(k < 64);
+            k
+        }
+    };
+    let ek: u8 = match eksq {
+        Some(k) => k,
+        None => {
+            let k: u8 = kani::any();
+            kani::assume(k < 64);
+            k
+        }
+    };
+    kani::assume(k != ek);
+    let kb = 1u64 << k;
+    let ekb = 1u64 << ek;
+    s.pieces[KING as usize] = kb | ekb;
+    let mut p = 0;
+    while p < 5 {
+        s.pieces[p] &= !(kb | ekb);
+        p += 1;
+    }
+    s.colors[us] = (s.colors[us] | kb) & !ekb;
+    s.colors[them] = (s.colors[them] | ekb) & !kb;
+    s
+}
